@@ -86,6 +86,10 @@ static CO_ERR COTSyncCycleWrite(struct CO_OBJ_T *obj, struct CO_NODE_T *node, vo
 
     /* Reactivate sync producer with new cycle value */
     if ((sync->CobId & CO_SYNC_COBID_ON) != 0) {
+        if (node->Error == CO_ERR_SYNC_RES) {
+            /* forget a resolution error of an earlier request */
+            node->Error = CO_ERR_NONE;
+        }
         COSyncProdActivate(sync);
         if (node->Error == CO_ERR_SYNC_RES) {
             /*
